@@ -56,6 +56,29 @@ def c04_spike_at_swapped():
         return False, f"spike_at raised {type(e).__name__}: {e}"
 
 
+def c04_undelayed_selector_axis():
+    """C04: querying currents/spikes at a delay (max delay 0 included) with per-synapse selectors B x N x D."""
+    msgs = []
+    s = neural.DeltaCurrent((2,), 1.0, spike_charge=1.0, delay=0.0, batch_size=1, current_overbound=7.5)
+    s(torch.tensor([[True, False]]))
+    try:
+        got = s.current_at(torch.zeros(1, 2, 2)).tolist()
+        if got != [[[1.0, 1.0], [0.0, 0.0]]]:
+            msgs.append(f"DeltaCurrent delay 0: current_at(zeros(1,2,2)) = {got}, expected [[[1,1],[0,0]]]")
+    except Exception as e:
+        msgs.append(f"DeltaCurrent current_at raised {type(e).__name__}")
+    d = neural.DoubleExponentialCurrent((3,), 1.0, spike_charge=2.0, tc_decay=8.0, tc_rise=2.0, delay=0.0, batch_size=2)
+    d(torch.tensor([[1, 0, 1], [0, 1, 1]]).bool())
+    for nm in ("current_at", "spike_at"):
+        try:
+            r = getattr(d, nm)(torch.zeros(2, 3, 2))
+            if tuple(r.shape) != (2, 3, 2):
+                msgs.append(f"DoubleExponentialCurrent.{nm} returned shape {tuple(r.shape)}, documented (2, 3, 2)")
+        except Exception as e:
+            msgs.append(f"DoubleExponentialCurrent.{nm}(zeros(2,3,2)) raised {type(e).__name__}")
+    return not msgs, "; ".join(msgs) or "undelayed synapses answer B x N x D selectors with B x N x D values"
+
+
 def c05_conv_presyn_receptive():
     """C05: the pre/post receptive views broadcast against the weight as documented."""
     c = neural.Conv2D(4, 4, 2, 3, 1.0, 2, synapse=neural.DeltaCurrent.partialconstructor(1.0))
